@@ -15,7 +15,7 @@ from amaranth import Elaboratable, Module, Signal
 from dsim.kernel import make_bench, cached_bench, Violations
 from models import usb2
 from models.usb2 import token_packet, data_packet, handshake_packet, apply_fault, crc16
-from models.usb2_wire import render_rx, WaveActor, rand_timing
+from models.usb2_wire import render_rx, WaveActor, rand_timing, gen_idle_data
 
 PROPERTY = "C02"
 ENGINE = "usb2_wire"
@@ -140,6 +140,7 @@ def gen(rng, tier, index):
         op["bytes"] = raw.hex()
         op["what"] = what
         ops.append(op)
+    cfg["idle_data"] = gen_idle_data(rng)
     return {"engine": ENGINE, "config": cfg, "ops": ops}
 
 
@@ -215,7 +216,7 @@ def run(scn):
     if wiring == "device":
         side = {"tx_ready": 1, "line_state": 0b01, "connect": 1, "full_speed_only": 1}
     ipd = 3 if wiring == "wired_hs" else 12
-    wave, packets = render_rx(ops, side=side, tail=40)
+    wave, packets = render_rx(ops, side=side, tail=40, idle_data=cfg.get("idle_data"))
     actor = WaveActor(wave)
     log = bench.run([actor], max_cycles=len(wave) + 4)
     S = actor.samples
